@@ -27,6 +27,12 @@ Data == <<
   Series(<< <<"__name__","h3_bucket">>, <<"le","1">> >>, [i \in 1..10 |-> Smp(IF i <= 4 THEN i - 1 ELSE i + 2, IF i = 4 THEN "s" ELSE "f", i)]),
   Series(<< <<"__name__","h3_bucket">>, <<"le","+Inf">> >>, [i \in 1..10 |-> Smp(IF i <= 4 THEN i - 1 ELSE i + 2, IF i = 4 THEN "s" ELSE "f", 4 * i)]),
   Series(<< <<"__name__","gap">>, <<"a","x">> >>, [i \in 1..10 |-> Smp(IF i <= 4 THEN i - 1 ELSE i + 2, IF i = 4 THEN "s" ELSE "f", 10 + i)]),
+  \* a metric that takes over from another one (same labels but the name): ho ends at tick 5 (marker at 6), ho2
+  \* begins at tick 5 - exactly one common step; hp / hp2 never meet (hp ends at 4, hp2 begins at 7)
+  Series(<< <<"__name__","ho">>, <<"a","x">> >>, [i \in 1..7 |-> Smp(i - 1, IF i = 7 THEN "s" ELSE "f", i)]),
+  Series(<< <<"__name__","ho2">>, <<"a","x">> >>, [i \in 1..8 |-> Smp(i + 4, "f", 10 * i)]),
+  Series(<< <<"__name__","hp">>, <<"a","x">> >>, [i \in 1..6 |-> Smp(i - 1, IF i = 6 THEN "s" ELSE "f", i)]),
+  Series(<< <<"__name__","hp2">>, <<"a","x">> >>, [i \in 1..6 |-> Smp(i + 6, "f", 10 * i)]),
   Series(<< <<"__name__","r">>, <<"A","first">>, <<"a","x">>, <<"b","9">>, <<"zz","last">> >>, [i \in 1..Span |-> Smp(i - 1, "f", 1)]) >>
 
 MN == <<Sel(<<Re("__name__", "m|n", <<"m", "n">>)>>)>>
@@ -39,7 +45,15 @@ F1(fn, p) == Over(p, LAMBDA c : Fn(fn, <<c>>))
 GAP == <<Sel(<<Metric("gap")>>)>>
 HQ3 == Join(<<NumS("0.5")>>, <<Sel(<<Metric("h3_bucket")>>)>>, LAMBDA a, b : Fn("histogram_quantile", <<a, b>>))
 TINYX == <<Sel(<<Metric("tiny"), Eq("a", "x")>>)>>
+HO == <<Sel(<<Re("__name__", "ho|ho2", <<"ho", "ho2">>)>>)>>
+HP == <<Sel(<<Re("__name__", "hp|hp2", <<"hp", "hp2">>)>>)>>
 Plans == <<
+  Join(HO, <<Num(5)>>, LAMBDA a, b : Bin("*", a, b)), Join(<<Num(5)>>, HO, LAMBDA a, b : Bin("-", a, b)), Over(HO, LAMBDA c : NegN(c)), F1("abs", HO),
+  Join(HO, <<Num(2)>>, LAMBDA a, b : BinM(">", a, b, TRUE, "1:1", FALSE, <<>>, <<>>)),
+  Join(<<Num(1)>>, Join(HO, <<Num(5)>>, LAMBDA a, b : Bin("*", a, b)), LAMBDA a, b : Agg("topk", TRUE, <<>>, <<a, b>>)),
+  Over(Join(HO, <<Num(5)>>, LAMBDA a, b : Bin("*", a, b)), LAMBDA c : Agg("sum", FALSE, <<>>, <<c>>)),
+  Join(HP, <<Num(5)>>, LAMBDA a, b : Bin("*", a, b)), Over(HP, LAMBDA c : NegN(c)), F1("abs", HP),
+  Join(<<Num(2)>>, Join(HP, <<Num(5)>>, LAMBDA a, b : Bin("*", a, b)), LAMBDA a, b : Agg("bottomk", TRUE, <<>>, <<a, b>>)),
   HQ3, Join(HQ3, TINYX, LAMBDA a, b : BinM("+", a, b, FALSE, "1:1", TRUE, <<>>, <<>>)),
   Join(<<Sel(<<Metric("p9")>>), Fn("scalar", <<1>>)>>, HQ3, LAMBDA a, b : Fn("clamp_min", <<b, a>>)),
   GAP, F1("abs", GAP), F1("timestamp", GAP), Over(GAP, LAMBDA c : NegN(c)), Over(GAP, LAMBDA c : Agg("sum", TRUE, <<>>, <<c>>)),
